@@ -585,6 +585,32 @@ theorem reset_after_error_eq_fresh (d0 : Dec) (history : List DecOp) (data : Lis
     (r.reset.err = false ∧ r.reset.count = 0 ∧ r.reset.b = 0) :=
   ⟨tsd_decoder_reset_eq_fresh _ data h, tsd_decoder_reset_range_eq_fresh _ data s e, rfl, rfl, rfl, rfl, rfl⟩
 
+/-- **Reset on ANY byte string.** `ResetWithTimeRange(data, s, e)` has no guard: for every byte string,
+the empty one included, and after every prior history of the object, the decoder is exactly what a zero
+decoder armed with `data` is — nothing of the previous block (buffer, bit cursor, XOR state, slot index,
+time range, errors) survives. `Reset(data)` likewise for every `data` longer than the 4 header bytes. -/
+theorem tsd_reset_any_bytes_eq_fresh (d0 : Dec) (history : List DecOp) (data : List Nat) (s e : Nat) :
+    (runDec d0 history).resetWithTimeRange data s e = Dec.zero.resetWithTimeRange data s e ∧
+    (runDec d0 history).resetWithTimeRange [] s e = Dec.zero.resetWithTimeRange [] s e ∧
+    (4 < data.length → (runDec d0 history).reset data = Dec.fresh data) :=
+  ⟨tsd_decoder_reset_range_eq_fresh _ data s e, tsd_decoder_reset_range_eq_fresh _ [] s e,
+   fun h => tsd_decoder_reset_eq_fresh _ data h⟩
+
+/-- **The empty block.** Zero bytes (`BytesWithoutTime()` of a field without data points,
+`WriteField(id, nil)`) given to ANY decoder object — in particular one whose previous block was only
+half read — decode over any slot range to "no slot has a value": every slot-addressed read answers
+`none` and the sequential loop yields nothing. -/
+theorem tsd_empty_block_reads_nothing (d0 : Dec) (history : List DecOp) (s e : Nat) (qs : List Nat) (fuel : Nat) :
+    (((runDec d0 history).resetWithTimeRange [] s e).getValues qs).1 = qs.map (fun _ => none) ∧
+    (((runDec d0 history).resetWithTimeRange [] s e).readSeq fuel).1 = [] :=
+  ⟨EmptyDec.getValues qs _ (Dec.resetWithTimeRange_empty _ s e), EmptyDec.readSeq fuel _ (Dec.resetWithTimeRange_empty _ s e)⟩
+
+/-- non-vacuity: a decoder half way through a 3-value block, then the empty block over the same range -/
+example : ∃ bytes, tsdEncodeNoTime 10 [some 3, some 4, some 5] = bytes ∧
+    (((runDec ((Dec.zero).resetWithTimeRange bytes 10 12) [.getValue 10]).resetWithTimeRange [] 10 12).getValues
+      [10, 11, 12]).1 = [none, none, none] :=
+  ⟨_, rfl, (tsd_empty_block_reads_nothing _ [.getValue 10] 10 12 [10, 11, 12] 0).1⟩
+
 /-- the error states are reachable: a dense block cut inside its first value drives all three layers
 into their error state (this is the fault the harness injects before reuse) -/
 example : let d := runDec (Dec.fresh [0, 0, 1, 0, 0xff, 0xff, 0xff]) [.getValue 0, .getValue 1, .value]
